@@ -109,7 +109,7 @@ class AES256ColumnEncryptionPolicy(ColumnEncryptionPolicy):
     def encode_and_encrypt(self, coldesc, obj):
         if not coldesc:
             raise ValueError("ColDesc supplied to encode_and_encrypt cannot be None")
-        if not obj:
+        if obj is None:
             raise ValueError("Object supplied to encode_and_encrypt cannot be None")
         coldata = self.coldata.get(coldesc)
         if not coldata:
